@@ -188,7 +188,9 @@ def o4(W, ob):
                          'disconnect_player can disconnect an already disconnected player: ' + dnf_str(g)[:200], where(dp, t.line))
 
 
-from . import helpers
+from . import helpers, wiring
+
+from . import initial
 
 OBLIGATIONS = [
     ('C07.O1', 'timeout guards', 'NetworkInterrupted under last_recv_time + disconnect_notify_start < now, Disconnected under '
@@ -203,4 +205,6 @@ OBLIGATIONS = [
     ('C07.O6', 'the cut-off is final (= C03.O4)', 'inputs of a player already marked disconnected are ignored (see C03.O4)', c03.o4),
     ('C07.O7', 'the pending disconnect frame takes part in the rollback (= C01.O1, C01.O7)', 'see C01.O7', c01.o7),
     ('C07.H', 'helpers the rules above rely on', 'the bodies of the helpers named by this property\'s rules compute what the rules assume (endpoint_getters, protocol_state_tests); see rules/helpers.py', helpers.bundle('endpoint_getters', 'protocol_state_tests')),
+    ('C07.W', 'configuration wiring', 'at every call site that passes a field read `x.B` for a parameter `A` the callee has no same-typed parameter `B`; in every struct literal no parameter `B` is stored in field `A` while a same-typed parameter `A` / field `B` exists (builder -> constructor -> endpoint fields: timeouts, window, fps are not crossed); see rules/wiring.py', wiring.rule),
+    ('C07.I', 'initial state', 'every constructor gives the fields this property\'s rules interpret (NULL_FRAME = none / nothing yet, 0 = first frame, latches open, typestate start) the value listed in tables/initial_state.json; every field compared with NULL_FRAME anywhere is listed; see rules/initial.py', initial.rule_for('C07')),
 ]
